@@ -146,6 +146,12 @@ def _check_batch(case):
             alone = " [the same call alone in a fresh process: %s]" % (b2[0] if b2 else "no report")
         return Fail("sanitizer/crash report %s during call #%r of the batch: %r%s" % (key, i, which, alone), key=key,
                     observed=rep, required="no AddressSanitizer/UBSan report, no crash, no hang")
+    m = re.search(r"^GARBAGE (\d+) (.*)$", out, flags=re.M)
+    if m:
+        i = int(m.group(1))
+        return Fail("call #%d of the batch (%r) returned memory it never wrote: %s" % (i, calls[i] if i < len(calls) else None, m.group(2)),
+                    key="uninitialised-output:anneal_" + (calls[i]["fn"] if i < len(calls) else "?"),
+                    observed=m.group(2), required="states in the domain and values equal to the model at the state")
     # history independence: identical seeded calls give identical results wherever they stand in the batch
     res = _results(out)
     first = {}
